@@ -1,7 +1,7 @@
 (* Properties/C11.v — Secret envelopes round-trip and reject corruption.
    Only statements closed by [exact]; the proofs live in Proofs/Envelope*.v. *)
 From Verif Require Import Base.Bytes Model.Envelope Src.SrcEnvelope Proofs.EnvelopeBase64 Proofs.EnvelopeProofs
-  Proofs.EnvelopeCRC.
+  Proofs.EnvelopeCRC Proofs.EnvelopeText.
 
 (* the parameters the Go source has today, as read by srcfacts on this run *)
 Definition src_params : env_params :=
@@ -39,17 +39,20 @@ Theorem C11_reject_wrong_checksum : forall bin,
   forall ct, decode_ct src_params (b64_encode bin) <> DOk ct.
 Proof. exact (reject_wrong_checksum src_params). Qed.
 
-(* ---- corruption of the binary envelope [env_bin p ct] by xor with a mask [m] of the same length ----
-   positions are counted in CRC transmission order (bit j of byte i is 8i+j) *)
+(* ---- corruption of the BINARY envelope [env_bin p ct] - the bytes BEFORE base64 - by xor with a mask [m] of the
+   same length; positions are counted in CRC transmission order (bit j of byte i is 8i+j).
+   "Flipped bits" and "bursts" in the theorems of this block are bits of the binary envelope before base64, NOT bits of
+   the base64 text that is stored and transmitted: one flipped bit of the text changes up to six bits of the binary
+   form, or its length.  The text level is the block "corruption of the base64 TEXT" below. *)
 
-(* up to three flipped bits anywhere (trailer included) in an envelope of at most 91639 bits are rejected;
-   the bound is the exact Hamming-distance-4 range of CRC-32 (see C11_hd_bound_sharp) *)
+(* up to three flipped bits OF THE BINARY ENVELOPE anywhere (trailer included) in an envelope of at most 91639 bits
+   are rejected; the bound is the exact Hamming-distance-4 range of CRC-32 (see C11_hd_bound_sharp) *)
 Theorem C11_reject_le3_flips : forall ct m : string,
   String.length m = String.length (env_bin src_params ct) -> mask_le3 m = true ->
   forall ct', decode_ct src_params (b64_encode (sxor (env_bin src_params ct) m)) <> DOk ct'.
 Proof. exact (mask_le3_rejected src_params). Qed.
 
-(* any burst of at most 32 bits inside the checksummed bytes, for envelopes of EVERY length *)
+(* any burst of at most 32 bits (of the binary envelope) inside the checksummed bytes, for envelopes of EVERY length *)
 Theorem C11_reject_burst32_body : forall ct m : string,
   String.length m = String.length (env_bin src_params ct) -> mask_burst32_body m = true ->
   forall ct', decode_ct src_params (b64_encode (sxor (env_bin src_params ct) m)) <> DOk ct'.
@@ -81,12 +84,98 @@ Theorem C11_burst_boundary_refuted :
     /\ ct' <> ct.
 Proof. exact burst_boundary_refuted. Qed.
 
-(* the 91639-bit bound is sharp: a weight-3 pattern of 91640 bits is a CRC-32 codeword *)
+(* the 91639-bit bound is sharp for CRC-32 (a fact about the polynomial, whatever the envelope): a weight-3 pattern
+   of 91640 bits - positions 0, 49961, 91639 - is a codeword of the CRC-32 register *)
 Theorem C11_hd_bound_sharp :
   8 * N.of_nat (length sharp_pattern) = 91640 /\ popc sharp_pattern = 3%nat
   /\ bit_positions 0 sharp_pattern = [0; 49961; 91639]
   /\ crc_update 0 sharp_pattern = 0.
 Proof. exact hd_bound_sharp. Qed.
+
+(* ---- corruption of the base64 TEXT (what is stored in the YAML document and transmitted) --------------------------
+   [text_set k c t] replaces character k of t by c; [text_flip k j t] flips bit j of character k; [bit_distance] counts
+   the differing bits of two texts.  The property text says "an envelope altered by up to three flipped bits": read on
+   the stored text that statement is FALSE (two refutations below, both confirmed on decodeCiphertext, known finding
+   C11-text-flips); what IS guaranteed at text level follows. *)
+
+(* GUARANTEED, every length: ONE character replaced by any character of the base64 alphabet (in particular one flipped
+   bit that stays inside the alphabet; the replaced character not being '=' padding) never yields another payload:
+   the text is rejected, or - when only bits the decoder ignores changed (the character before the padding) - it still
+   decodes to the very same binary envelope (C11_text_ignored_bits_example). *)
+Theorem C11_text_one_char_replaced : forall (ct ct' : string) (k : nat) (c' : ascii),
+  (k < String.length (encode_ct src_params ct))%nat -> b64val c' <> None ->
+  b64val (nth k (chars (encode_ct src_params ct)) pad) <> None ->
+  decode_ct src_params (text_set k c' (encode_ct src_params ct)) = DOk ct' ->
+  b64_decode (text_set k c' (encode_ct src_params ct)) = Some (env_bin src_params ct) /\ ct' = ct.
+Proof. exact (fun ct ct' k c' => text_one_char src_params ct ct' k c' (proj1 C11_src_params_wf)). Qed.
+
+Theorem C11_text_one_flip_inside_alphabet : forall (ct ct' : string) (k : nat) (j : N),
+  (k < String.length (encode_ct src_params ct))%nat ->
+  b64val (nth k (chars (encode_ct src_params ct)) pad) <> None ->
+  b64val (flip_bit j (nth k (chars (encode_ct src_params ct)) pad)) <> None ->
+  decode_ct src_params (text_flip k j (encode_ct src_params ct)) = DOk ct' -> ct' = ct.
+Proof.
+  exact (fun ct ct' k j Hk Hnp Hc HD =>
+    proj2 (text_one_char src_params ct ct' k _ (proj1 C11_src_params_wf) Hk Hc Hnp HD)).
+Qed.
+
+(* GUARANTEED, every length, every base64 text: a character replaced by one that is neither in the alphabet nor '='
+   (a flipped bit that leaves the alphabet; CR and LF, which the decoder skips, included) is rejected as base64 *)
+Theorem C11_text_char_outside_alphabet : forall (ct : string) (k : nat) (c' : ascii),
+  (k < String.length (encode_ct src_params ct))%nat -> b64_or_pad c' = false ->
+  decode_ct src_params (text_set k c' (encode_ct src_params ct)) = DErrBase64.
+Proof.
+  exact (fun ct k c' Hk Hc =>
+    eq_trans (decode_ct_bin src_params _)
+             (f_equal (fun o => match o with None => DErrBase64 | Some bin => decode_bin src_params bin end)
+                      (text_outside_alphabet (env_bin src_params ct) k c' Hk Hc))).
+Qed.
+
+(* the binary statement behind it: a binary form that differs from a genuine envelope in at most two adjacent bytes
+   (same length) is never accepted, for envelopes of every length - the big-endian trailer included *)
+Theorem C11_two_adjacent_bytes_rejected : forall (ct bin' ct' : string),
+  near (bytes_of (env_bin src_params ct)) (bytes_of bin') -> decode_ct src_params (b64_encode bin') = DOk ct' ->
+  bin' = env_bin src_params ct.
+Proof.
+  exact (fun ct bin' ct' Hn HD =>
+    near_not_accepted src_params ct bin' ct' Hn
+      (eq_trans (eq_sym (eq_trans (decode_ct_bin src_params _)
+                                  (f_equal (fun o => match o with None => DErrBase64 | Some b => decode_bin src_params b end)
+                                           (b64_decode_encode bin')))) HD)).
+Qed.
+
+(* REFUTED: ONE flipped bit of the text can be accepted with another payload.  The 24-character text of the envelope
+   of 6b ab ce ea b9 51 ends in '9' (0x39); flipping bit 2 makes it '=' (0x3D), the text then decodes to the envelope
+   cut by one byte, whose last four bytes are the CRC-32 of the rest: the decrypter receives 6b ab ce ea b9. *)
+Theorem C11_text_one_flip_refuted :
+  exists ct t t' ct', encode_ct std ct = t /\ String.length t' = String.length t /\ bit_distance t t' = 1%nat
+    /\ decode_ct std t' = DOk ct' /\ ct' <> ct.
+Proof.
+  exact (ex_intro _ pad_ct (ex_intro _ pad_text (ex_intro _ pad_flipped (ex_intro _ pad_ct'
+    (conj (proj1 text_one_flip_refuted) (conj eq_refl
+      (conj (proj1 (proj2 (proj2 text_one_flip_refuted))) (proj2 (proj2 (proj2 text_one_flip_refuted)))))))))).
+Qed.
+
+(* REFUTED: THREE flipped bits of the text, every one leaving its character inside the alphabet, can be accepted with
+   another payload: a 328-character text (1 968 binary bits, far below 91 639), characters 13, 245, 321 (P->T, A->Q,
+   C->c); the three text bits change 8 bits of the binary envelope, which form a CRC-32 codeword. *)
+Theorem C11_text_flips_refuted :
+  exists ct t t' ct', encode_ct std ct = t /\ String.length t = 328%nat /\ bit_distance t t' = 3%nat
+    /\ forallb (fun c => match b64val c with Some _ => true | None => false end) (chars t') = true
+    /\ decode_ct std t' = DOk ct' /\ ct' <> ct
+    /\ (exists bin bin', b64_decode t = Some bin /\ b64_decode t' = Some bin'
+                         /\ length (mask_positions (sxor bin bin')) = 8%nat).
+Proof. exact text_three_flips_refuted'. Qed.
+
+Example C11_text_ignored_bits_example :
+  encode_ct std "a" = "ZXNjeAAAAAFhrKP/bQ==" /\ text_flip 17 1 "ZXNjeAAAAAFhrKP/bQ==" = "ZXNjeAAAAAFhrKP/bS=="
+  /\ decode_ct std "ZXNjeAAAAAFhrKP/bS==" = DOk "a".
+Proof. exact text_ignored_bits_example. Qed.
+
+(* one flipped text bit can change six bits of the binary form: 'f' (31 = 011111) and 'g' (32 = 100000) differ in bit 0 *)
+Example C11_text_flip_six_bits :
+  flip_bit 0 "f" = "g"%char /\ b64val "f" = Some 31 /\ b64val "g" = Some 32 /\ N.lxor 31 32 = 63.
+Proof. exact (conj eq_refl (conj eq_refl (conj eq_refl eq_refl))). Qed.
 
 (* the register is GF(2)-linear: the acceptance of an error pattern does not depend on the message *)
 Theorem C11_crc_linear : forall m e : string, String.length m = String.length e ->
